@@ -40,6 +40,24 @@ def short(node, n: int = 160) -> str:
     return s if len(s) <= n else s[: n - 3] + "..."
 
 
+def normalise_tree(tree: ast.AST) -> None:
+    """Views that every rule may rely on (applied once, in place, line numbers kept):
+    `for k, x in enumerate(S): ...` whose counter k is never read (anywhere in the enclosing function) is the loop `for x in S: ...`.
+    Rules are written against the plain form; a counter that *is* used keeps the tuple target and is dealt with by the rule concerned."""
+    for fn in [f for f in ast.walk(tree) if isinstance(f, (ast.FunctionDef, ast.AsyncFunctionDef, ast.Module))]:
+        own = list(ast.walk(fn))
+        for lp in [l for l in own if isinstance(l, (ast.For, ast.comprehension))]:
+            t, it = lp.target, lp.iter
+            if isinstance(t, ast.Tuple) and len(t.elts) == 2 and isinstance(t.elts[0], ast.Name) and isinstance(it, ast.Call) \
+                    and isinstance(it.func, ast.Name) and it.func.id == "enumerate" and len(it.args) == 1 and not it.keywords:
+                k = t.elts[0].id
+                scope = next((f for f in ast.walk(tree) if isinstance(f, (ast.FunctionDef, ast.AsyncFunctionDef)) and any(x is lp for x in ast.walk(f))), tree)
+                uses = [x for x in ast.walk(scope) if isinstance(x, ast.Name) and x.id == k and isinstance(x.ctx, ast.Load)]
+                if not uses:
+                    lp.target = t.elts[1]
+                    lp.iter = it.args[0]
+
+
 def set_parents(tree: ast.AST) -> None:
     for parent in ast.walk(tree):
         for child in ast.iter_child_nodes(parent):
@@ -450,6 +468,7 @@ class Repo:
                         tree = ast.parse(src, filename=path)
                     except SyntaxError as e:
                         raise AnalysisError(f"cannot parse {rel}: {e}")
+                    normalise_tree(tree)
                     set_parents(tree)
                     _TREE_CACHE[(rel, src)] = tree
                 m = Module(modname, path, rel, src, tree)
